@@ -493,7 +493,7 @@ thread_local! {
 fn take_stack() -> DefaultStack {
     STACK_POOL
         .with(|p| p.borrow_mut().pop())
-        .unwrap_or_else(|| DefaultStack::new(2 * 1024 * 1024).expect("coroutine stack"))
+        .unwrap_or_else(|| DefaultStack::new(64 * 1024 * 1024).expect("coroutine stack"))
 }
 
 impl System {
